@@ -145,6 +145,8 @@ def main():
     for fl in plan.get("flavours", ["rel"]):
         if not build(fl):
             log("build failed"); sys.exit(2)
+    if "pre" in plan and not plan["pre"]():
+        log("driver build failed"); sys.exit(2)
     if "custom" in plan:
         # checks with their own driver (C++ drivers, design-only, ...) implement run(pid, tier, seed)
         rc = plan["custom"](pid, tier, seed, plan)
@@ -268,7 +270,8 @@ def main():
         print("VIOLATION property=%s replay=%s" % (pid, mc["failed"]))
         rc = 1
     nontriv = sum(1 for f in good if f.get("nontrivial"))
-    distinct = len(set(hashlib.sha1(json.dumps(f["sample"].get("script", ""), sort_keys=True).encode()).hexdigest()
+    distinct = len(set(hashlib.sha1((f["sample"].get("script") or (f.get("texts") or [{}])[0].get("text", "") or
+                                     json.dumps(f["sample"], sort_keys=True)).encode()).hexdigest()
                        for f in good if f.get("nontrivial")))
     samples = [f["sample"] for f in good[:3]]
     answers = {}
